@@ -271,9 +271,53 @@ def run(chk):
     for size in (10, 16, 20, 32):
         for v in patterns(0, size, 256, rnd, 2)[:6]:
             with Script(lambda k, b, v=v: v % (1 << b) if k == "bits" else v % b) as sc:
-                key = TOTP.using(alg="sha256").new(size=size).key if size > 20 else TOTP.new(size=size).key
+                try:
+                    key = TOTP.using(alg="sha256").new(size=size).key if size > 20 else TOTP.new(size=size).key
+                except Exception as ex:
+                    chk.violation(f"TOTP.new:{type(ex).__name__}", f"TOTP{'.using(alg=sha256)' if size > 20 else ''}.new(size={size}) raised {type(ex).__name__}: {ex}", {"size": size})
+                    continue
             dg, shp = shape(sc.requests, 256, size)
             ev("bytes", "TOTP.new", n=size, digits=dg, out=list(key), requests=shp)
+    # cisco_type7: the generated offset is one uniform draw from the 16 documented values 0..15, and it is the offset of the hash
+    import passlib.hash as _PH
+    for v in range(16):
+        with Script(lambda k, b, v=v: v % b if k == "range" else v % (1 << b)) as sc:
+            hs = _PH.cisco_type7.hash("pw")
+        chk.evaluations += 1
+        chk.count(("cisco_type7-offset", v))
+        sizes = [(r[1][1] - r[1][0] + 1) if r[0] == "randint" else ((1 << r[1]) if r[0] == "getrandbits" else r[1]) for r in sc.requests]
+        if sizes != [16] or int(hs[:2]) != v:
+            chk.violation("cisco_type7:offset", f"cisco_type7.hash(): requests of sizes {sizes} to the random source (expected one over 16 values); returned value {v}, offset in the hash {hs[:2]}",
+                          {"hash": hs, "requests": [list(map(str, r)) for r in sc.requests]})
+            break
+    # custom word lists: every entry is a symbol of its own exactly as given (entries that differ only in white space or case are
+    # different entries), each drawn with one uniform request over the whole list
+    words = ["alpha\n", "beta\n", "gamma\n", "alpha", " alpha", "Alpha", "be ta"]
+    for idx in ([0, 3, 4], [5, 6, 1], [3, 3, 0], [2, 4, 6]):
+        it = iter(idx)
+        with Script(lambda k, b, it=it: next(it) % b) as sc:
+            try:
+                phrase = pwd.genphrase(length=3, words=words, sep="|")
+            except Exception as ex:
+                phrase = f"{type(ex).__name__}: {ex}"
+        chk.evaluations += 1
+        chk.count(("genphrase-custom", tuple(idx)))
+        if phrase != "|".join(words[i] for i in idx) or any((q[1] if q[0] != "randint" else q[1][1] - q[1][0] + 1) != len(words) for q in sc.requests) or len(sc.requests) != 3:
+            chk.violation("genphrase:custom-words", f"genphrase over {words} with draws {idx} gave {phrase!r} using requests {[q[:2] for q in sc.requests]}",
+                          {"words": words, "draws": idx, "phrase": phrase})
+            break
+    # without a size the new key has the digest size of the algorithm in force - set in the call or by the factory
+    for alg, dsz in (("sha1", 20), ("sha256", 32), ("sha512", 64)):
+        for how, mk in (("new(alg=)", lambda: TOTP.new(alg=alg)), ("using(alg=).new()", lambda: TOTP.using(alg=alg).new()), ("using(alg=)(new=True)", lambda: TOTP.using(alg=alg)(new=True))):
+            chk.evaluations += 1
+            chk.count(("totp-default-size", alg, how))
+            try:
+                with Script(lambda k, b: 0) as sc:
+                    got = len(mk().key)
+            except Exception as ex:
+                got = f"{type(ex).__name__}: {ex}"[:80]
+            if got != dsz:
+                chk.violation(f"TOTP.new:default-size:{alg}", f"TOTP {how} with {alg}: key of {got} bytes, the digest has {dsz}", {"alg": alg, "how": how})
     abc62 = "ABCDEFGHIJKLMNOPQRSTUVWXYZabcdefghijklmnopqrstuvwxyz0123456789"
     for entropy in (1, 64, 128, 256):
         n = int(math.ceil(entropy * math.log(2, 62)))
